@@ -176,3 +176,16 @@ impl<I: Iterator> Iterator for Inexact<I> {
         (0, None)
     }
 }
+
+/// size of the harness element type that every generic container is instantiated at (C05 allocation bound)
+pub const LIVE_SIZE: usize = std::mem::size_of::<Live>();
+
+/// decode only (no conversion to `Val`): what the allocation / time budget of C05 is measured around
+pub fn prepare(ty: &Ty) {
+    live::reset_tls();
+    dynrec::prepare(ty);
+}
+
+pub fn decode_only(ty: &Ty, bytes: &[u8]) -> Result<Live, ErrInfo> {
+    live::decode(ty, bytes).map_err(|e| errinfo(&e))
+}
